@@ -91,9 +91,9 @@ fn filter_matches(f: Filter, k: &Key) -> bool {
             &k.what,
             What::Step { res: StepRes::FailedPanic(_) | StepRes::FailedAmbiguous | StepRes::FailedNotFound, .. } | What::HookFailed(..) | What::ParserError(_)
         ),
-        Filter::HooksAndParsingFinished => matches!(&k.what, What::HookFailed(..) | What::ParsingFinished),
+        Filter::HooksAndParsingFinished => matches!(&k.what, What::HookFailed(..) | What::ParsingFinished(_)),
         Filter::Everything => true,
-        Filter::RunLevel => matches!(&k.what, What::RunStarted | What::ParserError(_) | What::ParsingFinished | What::RunFinished),
+        Filter::RunLevel => matches!(&k.what, What::RunStarted | What::ParserError(_) | What::ParsingFinished(_) | What::RunFinished),
     }
 }
 
@@ -232,7 +232,7 @@ fn even_line(_: &gherkin::Feature, _: Option<&gherkin::Rule>, s: &gherkin::Scena
 }
 
 fn hooks_and_pf(e: &Ev) -> bool {
-    matches!(decode(e).what, What::HookFailed(..) | What::ParsingFinished)
+    matches!(decode(e).what, What::HookFailed(..) | What::ParsingFinished(_))
 }
 
 fn all_events(_: &Ev) -> bool {
@@ -240,7 +240,7 @@ fn all_events(_: &Ev) -> bool {
 }
 
 fn run_level(e: &Ev) -> bool {
-    matches!(decode(e).what, What::RunStarted | What::ParserError(_) | What::ParsingFinished | What::RunFinished)
+    matches!(decode(e).what, What::RunStarted | What::ParserError(_) | What::ParsingFinished(_) | What::RunFinished)
 }
 
 fn sc_left<L: cli::Args, R: cli::Args>(e: &Ev, _: &cli::Compose<L, R>) -> bool {
